@@ -73,26 +73,41 @@ fn can_tokens(toks: &[u64]) -> VecDeque<CanTok> {
     v
 }
 pub fn poll_tokens(link: u64, toks: &[u64]) -> L { poll_tokens_duplex(link, toks, false) }
+// a receiver object with a long life behind it: 70000 single-frame packets received and delivered before the measured traffic
+// (a receiver is back in its initial state after every delivered packet, so this must not matter)
+fn veteran_tokens(link: u64) -> L {
+    let mut t = vec![];
+    for i in 0..70000u32 { let p = Packet { is_error: i % 3 == 0, device_address: (i % 65536) as u16, data: vec![i as u8, (i >> 8) as u8, 7] }; packet_tokens(link, &p, &mut t); }
+    t
+}
+fn wear_in<I: Interface>(rx: &mut I, remaining: &dyn Fn() -> usize) {
+    let mut guard = 0u32;
+    while remaining() > 0 && guard < 200000 { let _ = catch_unwind(AssertUnwindSafe(|| rx.try_get_packet())); guard += 1; }
+}
 // duplex: before the first poll the receiving node itself transmits a small packet, its transmitter answering would-block a few times
-pub fn poll_tokens_duplex(link: u64, toks: &[u64], duplex: bool) -> L {
+pub fn poll_tokens_duplex(link: u64, toks: &[u64], duplex: bool) -> L { poll_tokens_opts(link, toks, duplex, false) }
+pub fn poll_tokens_opts(link: u64, toks: &[u64], duplex: bool, veteran: bool) -> L {
     let out_pkt = Packet { is_error: false, device_address: 0x4242, data: vec![1, 2, 3, 4, 5, 6, 7, 8, 9] };
     let mut obs: L = Vec::with_capacity(toks.len() * 8 + 256);
     match link {
         0 => {
             let st = Rc::new(RefCell::new(CanSt { rx: can_tokens(toks), accept_all: true, ans: vec![1, 1, 0, 1, 0].into_iter().collect(), ..Default::default() }));
             let mut rx = Can::new(ross_protocol::interface::can::verif_sim::Can::new(CanDev(st.clone())));
+            if veteran { st.borrow_mut().rx = can_tokens(&veteran_tokens(0)); wear_in(&mut rx, &|| st.borrow().rx.len()); st.borrow_mut().rx = can_tokens(toks); }
             if duplex { let _ = catch_unwind(AssertUnwindSafe(|| rx.try_send_packet(&out_pkt))); }
             drive(&mut rx, &|| st.borrow().rx.len(), &|| st.borrow_mut().spins = 0, &mut obs);
         }
         1 => {
             let st = Rc::new(RefCell::new(UsartSt { rx: toks.iter().map(|x| *x as u16).collect(), accept_all: true, ans: vec![1, 0, 1, 1, 0].into_iter().collect(), ..Default::default() }));
             let mut rx = Usart::new(UsartDev(st.clone()));
+            if veteran { st.borrow_mut().rx = veteran_tokens(1).iter().map(|x| *x as u16).collect(); wear_in(&mut rx, &|| st.borrow().rx.len()); st.borrow_mut().rx = toks.iter().map(|x| *x as u16).collect(); }
             if duplex { let _ = catch_unwind(AssertUnwindSafe(|| rx.try_send_packet(&out_pkt))); }
             drive(&mut rx, &|| st.borrow().rx.len(), &|| st.borrow_mut().spins = 0, &mut obs);
         }
         _ => {
             let st = Arc::new(Mutex::new(SerSt { rx: toks.iter().map(|x| *x as u16).collect(), max_read: (toks.len() % 3), ..Default::default() }));
             let mut rx = Serial::new(Box::new(SerDev(st.clone())));
+            if veteran { st.lock().unwrap().rx = veteran_tokens(2).iter().map(|x| *x as u16).collect(); wear_in(&mut rx, &|| st.lock().unwrap().rx.len()); st.lock().unwrap().rx = toks.iter().map(|x| *x as u16).collect(); }
             if duplex { st.lock().unwrap().flush_ok = true; let _ = catch_unwind(AssertUnwindSafe(|| rx.try_send_packet(&out_pkt))); }
             drive(&mut rx, &|| st.lock().unwrap().rx.len(), &|| st.lock().unwrap().spins = 0, &mut obs);
         }
@@ -312,7 +327,7 @@ pub fn exec_lnk(case: &[u64]) -> L {
         Some(toks)
     }));
     let duplex = flags & 1 != 0;
-    match built { Ok(Some(toks)) => poll_tokens_duplex(link, &toks, duplex), _ => vec![3] }
+    match built { Ok(Some(toks)) => poll_tokens_opts(link, &toks, duplex, flags & 8 != 0), _ => vec![3] }
 }
 pub fn gen_lnk(r: &mut Rng, thorough: bool, cx: &mut Ctx) {
     for link in 0..3u64 {
@@ -336,6 +351,8 @@ pub fn gen_lnk(r: &mut Rng, thorough: bool, cx: &mut Ctx) {
             if fl != 0 { l.push(fl); }
             cx.emit(&l);
         }
+        // a receiver object that has already received 70000 packets (flag 8; see poll_tokens_opts)
+        { let mut l = vec![link, 1, 1, 3]; for n in [5usize, 20, 0] { let p = gen_packet(r, n); show_packet(&p, &mut l); } l.push(8); cx.emit(&l); }
         // long sequences of small packets (counters kept across packets)
         for &np in (if thorough { &[300u64, 5000][..] } else { &[300u64][..] }) {
             let mut l = vec![link, 0, np];
